@@ -111,6 +111,8 @@ def observables(ctx, sc, label, case):
             for e in log[k0 + 1:]:
                 if e["t"] == "w" and e["k"] == "W" and e["v"] == "rs" and e["x"] in ("STOPPED", "ENDED"):
                     break
+                if e["t"] == "c" and e["k"] == "W" and e["v"] == "rs" and e["x"] == "STARTING":
+                    break           # a new start supersedes the stop
                 if e["t"] == "w" and e["k"] == "exec":
                     nexec += 1
             if nexec > 1:
